@@ -188,3 +188,103 @@ impl Drop for Holder {
         let _ = self.child.wait();
     }
 }
+
+
+// ------------------------------------------------------------------------------------------
+// call watchdog: "the call returns" as an observation
+// ------------------------------------------------------------------------------------------
+//
+// C02 and C14 state totality: a call into the crate RETURNS. A call that never returns cannot be
+// judged by the thread that made it, so a watchdog thread looks at the CPU time the calling
+// thread has spent inside ONE guarded call (its per-thread CPU clock: independent of machine load,
+// unlike wall time). Beyond `HANG_CPU_SECS` the watchdog writes the stage record with the
+// violation itself and ends the process.
+
+pub const HANG_CPU_SECS: u64 = 30;
+
+struct Watched {
+    what: &'static str,
+    clock: libc::clockid_t,
+    cpu_at_entry: std::time::Duration,
+    /// (address, length) of the input slice: borrowed by the guarded call, so alive while it is stuck
+    input: Option<(usize, usize)>,
+}
+
+static WATCHED: std::sync::Mutex<Option<std::collections::HashMap<std::thread::ThreadId, Watched>>> = std::sync::Mutex::new(None);
+static WATCHDOG_ON: std::sync::atomic::AtomicBool = std::sync::atomic::AtomicBool::new(false);
+
+fn cpu_of(clock: libc::clockid_t) -> Option<std::time::Duration> {
+    let mut ts = libc::timespec { tv_sec: 0, tv_nsec: 0 };
+    if unsafe { libc::clock_gettime(clock, &mut ts) } != 0 {
+        return None;
+    }
+    Some(std::time::Duration::new(ts.tv_sec as u64, ts.tv_nsec as u32))
+}
+
+pub struct WatchGuard(bool);
+
+impl Drop for WatchGuard {
+    fn drop(&mut self) {
+        if self.0 {
+            if let Some(m) = WATCHED.lock().unwrap_or_else(|e| e.into_inner()).as_mut() {
+                m.remove(&std::thread::current().id());
+            }
+        }
+    }
+}
+
+/// Guard one call into the crate under test (no-op unless the watchdog runs).
+pub fn watch_call(what: &'static str, input: Option<&[u8]>) -> WatchGuard {
+    if !WATCHDOG_ON.load(std::sync::atomic::Ordering::Relaxed) {
+        return WatchGuard(false);
+    }
+    let mut clock: libc::clockid_t = 0;
+    if unsafe { libc::pthread_getcpuclockid(libc::pthread_self(), &mut clock) } != 0 {
+        return WatchGuard(false);
+    }
+    let Some(now) = cpu_of(clock) else { return WatchGuard(false) };
+    let w = Watched { what, clock, cpu_at_entry: now, input: input.map(|i| (i.as_ptr() as usize, i.len())) };
+    WATCHED.lock().unwrap_or_else(|e| e.into_inner()).get_or_insert_with(Default::default).insert(std::thread::current().id(), w);
+    WatchGuard(true)
+}
+
+/// Start the watchdog thread (C02 / C14 stages). `out` is the stage record the driver reads.
+pub fn start_call_watchdog(prop: &str, stage: &str, tier: &str, seed: u64, out: &str) {
+    if cfg!(miri) || WATCHDOG_ON.swap(true, std::sync::atomic::Ordering::SeqCst) {
+        return;
+    }
+    let (prop, stage, tier, out) = (prop.to_string(), stage.to_string(), tier.to_string(), out.to_string());
+    let t0 = std::time::Instant::now();
+    std::thread::spawn(move || loop {
+        std::thread::sleep(std::time::Duration::from_millis(500));
+        let hit = {
+            let g = WATCHED.lock().unwrap_or_else(|e| e.into_inner());
+            g.as_ref().and_then(|m| {
+                m.values().find_map(|w| {
+                    let spent = cpu_of(w.clock)?.checked_sub(w.cpu_at_entry)?;
+                    (spent.as_secs() >= HANG_CPU_SECS).then(|| (w.what, spent, w.input.map(|(p, n)| unsafe { std::slice::from_raw_parts(p as *const u8, n) }.to_vec())))
+                })
+            })
+        };
+        let Some((what, spent, input)) = hit else { continue };
+        let sig = format!("{prop} call did not return: {what} (more than {HANG_CPU_SECS} s of CPU time inside one call)");
+        let mut detail = serde_json::json!({"cpu_seconds_inside_the_call": spent.as_secs_f64(), "seed": seed});
+        if let Some(i) = input {
+            let path = format!("{out}.hang-input.bin");
+            if std::fs::write(&path, &i).is_ok() {
+                detail["input_saved_as"] = serde_json::json!(path);
+                detail["input_len"] = serde_json::json!(i.len());
+            }
+        }
+        let rec = serde_json::json!({
+            "property": prop, "stage": stage, "tier": tier, "seed": seed,
+            "rule": "written by the call watchdog: the checking thread is stuck inside the crate under test",
+            "evaluations": 1, "distinct_nontrivial": 1, "samples": [], "counters": {format!("violation[{sig}]"): 1},
+            "violations": [{"sig": sig, "detail": detail}], "violations_total": 1, "inconclusive": [], "notes": [],
+            "missing_observations": [], "wall_s": t0.elapsed().as_secs_f64(),
+        });
+        let _ = std::fs::write(&out, serde_json::to_string_pretty(&rec).unwrap());
+        eprintln!("vh: {prop} stage={stage} tier={tier} seed={seed} evaluations=1 distinct=1 violations=1 inconclusive=0 wall={:.1}s (call watchdog)", t0.elapsed().as_secs_f64());
+        std::process::exit(1);
+    });
+}
